@@ -252,7 +252,7 @@ def run_misc():
 
 def replay(case, key):
     out = _res()
-    for f in (run_errors, run_recovery, run_misc, run_actions, run_layout, run_dyn_disambiguation, run_items, run_closure_follow, run_scanner, run_gss):
+    for f in (run_errors, run_recovery, run_misc, run_actions, run_layout, run_dyn_disambiguation, run_items, run_closure_follow, run_scanner, run_gss, run_next_tokens):
         r = f()
         out["violations"].extend(r["violations"])
     return out
@@ -685,3 +685,66 @@ def run_gss():
     out["rule"] = ("companion of contracts/gss.py: real GSSNode x look-ahead {none, t1} x layout before/after {empty, not} x "
                    "{0, 2} parent links x for_token {t1, t2}")
     return out
+
+
+def run_next_tokens():
+    """companion of the _next_tokens contract: the real Parser._next_tokens (with the real _token_recognition) on stub
+    states: STOP expected or not x consume_input x position before / at the end x one expected terminal matching or not
+    (lexical disambiguation off): STOP_token is offered iff STOP is expected and (not consume_input or at the end); at
+    the end nothing else is offered; the head does not move"""
+    from parglare.parser import STOP, STOP_token, Parser
+    out = _res()
+
+    class Stub:
+        _token_recognition = Parser._token_recognition
+        _lexical_disambiguation = Parser._lexical_disambiguation
+        debug = False
+        custom_token_recognition = None
+        lexical_disambiguation = False
+
+    for stop_expected, consume, at_end, matches in itertools.product((False, True), (False, True), (False, True), (False, True)):
+        sym = NS(name="t", prior=10, recognizer=(lambda inp, pos, r=("ab" if matches else None): r))
+        syms = ([STOP] if stop_expected else []) + [sym]
+        stub = Stub()
+        stub.consume_input = consume
+        head = NS(input_str="abab", position=4 if at_end else 2,
+                  state=NS(actions=_SymDict2(syms), finish_flags=[False] * len(syms)))
+        if stop_expected:
+            # STOP is a real terminal with a recogniser of its own; it never matches inside the input
+            pass
+        out["evaluations"] += 1
+        out["nontrivial"] += 1
+        key = {"STOP expected": stop_expected, "consume_input": consume, "at_end": at_end, "terminal matches": matches}
+        pos0 = head.position
+        try:
+            toks = Parser._next_tokens(stub, head)
+        except Exception as e:  # noqa
+            _viol(out, "Parser._next_tokens", key, f"raised {type(e).__name__}: {str(e)[:80]}")
+            continue
+        has_stop = any(t is STOP_token for t in toks)
+        exp_stop = stop_expected and (not consume or at_end)
+        others = [t for t in toks if t is not STOP_token]
+        ok = has_stop == exp_stop and head.position == pos0
+        ok = ok and (not at_end or not others) and (at_end or (len([t for t in others if t.symbol is sym]) == (1 if matches else 0)))
+        if not ok:
+            _viol(out, "Parser._next_tokens", key, {"STOP offered": has_stop, "other tokens": len(others)})
+    out["covers"] = ["Parser._next_tokens", "Parser._next_tokens@plain"]
+    out["rule"] = ("companion of the _next_tokens contract: STOP expected or not x consume_input x before / at the end of the "
+                   "input x a matching / non-matching expected terminal, lexical disambiguation off")
+    return out
+
+
+class _SymDict2(dict):
+    """ordered mapping keyed by symbols (real STOP and stubs): iteration and membership are what the scanner uses"""
+    def __init__(self, syms):
+        super().__init__()
+        self._syms = list(syms)
+
+    def __iter__(self):
+        return iter(self._syms)
+
+    def __contains__(self, x):
+        return any(x is s_ for s_ in self._syms)
+
+    def __len__(self):
+        return len(self._syms)
